@@ -313,6 +313,110 @@ mod recode {
     w5_128!(k_secp256k1_recode_u128, PK);
 }
 
+mod lms {
+    //! LMS private-key state machine and verifier totality. The one-time
+    //! signature and the hash functions are replaced by havoc stubs: what is
+    //! proved is everything `sign` / `verify` do around them, for every key
+    //! state (all 2^32 counter values) and every signature string.
+    use crrl::{CryptoRng, RngCore, RngError};
+
+    pub struct SymRng;
+    impl RngCore for SymRng {
+        fn next_u32(&mut self) -> u32 { kani::any() }
+        fn next_u64(&mut self) -> u64 { kani::any() }
+        fn fill_bytes(&mut self, dst: &mut [u8]) { if dst.len() > 0 { dst[0] = kani::any(); } }
+        fn try_fill_bytes(&mut self, dst: &mut [u8]) -> Result<(), RngError> { self.fill_bytes(dst); Ok(()) }
+    }
+    impl CryptoRng for SymRng {}
+
+    macro_rules! lms_harnesses { ($modname:ident, $M:path, $m:expr, $n:expr) => { mod $modname {
+        use super::*;
+        use $M as L;
+        const H: usize = L::PrivateKey::VERIF_H;
+        const SIGLEN: usize = L::PrivateKey::VERIF_SIGLEN;
+        const OTS: usize = L::PrivateKey::VERIF_OTS_SIGLEN;
+
+        fn havoc_ots_sign<T: CryptoRng + RngCore>(_sk: L::PrivateKey, _rng: &mut T, _q: u32, _msg: &[u8]) -> [u8; OTS] {
+            let mut r = [0u8; OTS];
+            r[0] = kani::any(); r[OTS - 1] = kani::any();
+            r
+        }
+        fn havoc_hn(_m1: &[u8], _m2: &[u8], _m3: &[u8], _m4: &[u8], _m5: &[u8]) -> [u8; $n] { let mut r = [0u8; $n]; r[0] = kani::any(); r }
+        fn havoc_hm(_m1: &[u8], _m2: &[u8], _m3: &[u8], _m4: &[u8], _m5: &[u8]) -> [u8; $m] { let mut r = [0u8; $m]; r[0] = kani::any(); r }
+
+        #[kani::proof]
+        #[kani::stub(L::PrivateKey::ots_sign, havoc_ots_sign)]
+        #[kani::unwind(70)]
+        fn k_sign_state_machine() {
+            let i: [u8; 16] = kani::any();
+            let seed: [u8; $m] = kani::any();
+            let q0: u32 = kani::any();
+            let mut t = [[0u8; $m]; 1usize << (H + 1)];
+            // distinguishable tree nodes: first byte symbolic, second byte = node index
+            let mut k = 0; while k < (1usize << (H + 1)) { t[k][0] = kani::any(); t[k][1] = k as u8; k += 1; }
+            let mut sk = L::PrivateKey::verif_from_parts(i, seed, q0, t);
+            let mut rng = SymRng;
+            let msg: [u8; 3] = kani::any();
+            let r = sk.sign(&mut rng, &msg);
+            // nothing but the counter may change
+            assert!(sk.verif_I() == i);
+            assert!(sk.verif_SEED() == seed);
+            let t2 = sk.verif_T();
+            let mut k = 0; while k < (1usize << (H + 1)) { assert!(t2[k][0] == t[k][0] && t2[k][1] == t[k][1]); k += 1; }
+            if q0 >= (1u32 << H) {
+                assert!(r.is_none());
+                assert!(sk.verif_current_leaf() == q0);
+            } else {
+                assert!(sk.verif_current_leaf() == q0 + 1);
+                let sig = r.unwrap();
+                assert!(sig.len() == SIGLEN);
+                assert!(sig[0] == (q0 >> 24) as u8 && sig[1] == (q0 >> 16) as u8 && sig[2] == (q0 >> 8) as u8 && sig[3] == q0 as u8);
+                // authentication path: sibling of each node on the way up
+                let mut node = q0 + (1u32 << H);
+                let mut lvl = 0;
+                while lvl < H {
+                    let sib = (node ^ 1) as usize;
+                    let j = 4 + OTS + 4 + lvl * $m;
+                    assert!(sig[j] == t[sib][0] && sig[j + 1] == sib as u8);
+                    node >>= 1;
+                    lvl += 1;
+                }
+            }
+        }
+
+        fn havoc_ots_verify(_pk: L::PublicKey, _q: u32, _sig: &[u8], _msg: &[u8]) -> Option<[u8; $n]> {
+            if kani::any() { None } else { let mut r = [0u8; $n]; r[0] = kani::any(); Some(r) }
+        }
+
+        /// verify(): wrong length, out-of-range leaf index or wrong type => false, and no panic for any string
+        #[kani::proof]
+        #[kani::stub(L::PublicKey::ots_verify, havoc_ots_verify)]
+        #[kani::stub(L::Hm, havoc_hm)]
+        #[kani::unwind(40)]
+        fn k_verify_total() {
+            const MAXLEN: usize = SIGLEN + 3;
+            let mut buf = [0u8; MAXLEN];
+            // the bytes verify() itself interprets are symbolic: leaf index, LMS type
+            buf[0] = kani::any(); buf[1] = kani::any(); buf[2] = kani::any(); buf[3] = kani::any();
+            let mut k = 0; while k < 4 { buf[OTS + 4 + k] = kani::any(); k += 1; }
+            let len: usize = kani::any();
+            kani::assume(len <= MAXLEN);
+            let pk = L::PublicKey::verif_from_parts(kani::any(), kani::any());
+            let msg: [u8; 2] = kani::any();
+            let r = pk.verify(&buf[..len], &msg);
+            if len != SIGLEN { assert!(!r); }
+            else {
+                let q = ((buf[0] as u32) << 24) | ((buf[1] as u32) << 16) | ((buf[2] as u32) << 8) | buf[3] as u32;
+                if q >= (1u32 << H) { assert!(!r); }
+            }
+        }
+    } } }
+    lms_harnesses!(sha256_m32, crrl::lms::LMS_SHA256_M32_H5_SHA256_N32_W8, 32, 32);
+    lms_harnesses!(sha256_m24, crrl::lms::LMS_SHA256_M24_H5_SHA256_N24_W8, 24, 24);
+    lms_harnesses!(shake_m24, crrl::lms::LMS_SHAKE_M24_H5_SHAKE_N24_W8, 24, 24);
+    lms_harnesses!(shake_m32, crrl::lms::LMS_SHAKE_M32_H5_SHAKE_N32_W8, 32, 32);
+}
+
 #[kani::proof]
 fn k_smoke_true() { let x: u8 = kani::any(); assert!(x as u32 + 1 > 0); }
 /// vacuity guard: this harness MUST fail; the runner checks that it does.
